@@ -11,12 +11,14 @@ program counter, `step_inv`).  Ties on every run of `bin/check C02`:
    `step` (driver `drv_c02`), with exclusion / try / deadlock / lost-update / livelock oracles on the
    implementation.
 
-Wake-up (liveness-side) statements are NOT proved here: the full statement is kept below as a comment
-(`rw_no_lost_wakeup`), the schedule exploration of the implementation with its deadlock and livelock
-oracles is the supporting (not substituting) evidence.
+Wake-up: the reader-queue half is proved (`rw_readers_no_lost_wakeup_partial`, invariant `RQ2` in
+`Proofs/RwWake.lean`); the writer-queue half and the derived no-deadlock statement are NOT proved: the full
+statement is kept below as a comment (`rw_no_lost_wakeup`), the schedule exploration of the implementation with its
+deadlock and livelock oracles is the supporting (not substituting) evidence.
 -/
 import TinyVerif.Model.RwLock
 import TinyVerif.Proofs.RwStep
+import TinyVerif.Proofs.RwWake
 import TinyVerif.Gen.SyncSites
 set_option linter.unusedSimpArgs false
 set_option linter.unusedVariables false
@@ -249,12 +251,36 @@ theorem try_succeeds_only_if_admitted (c : Cfg) (hc : c.Good) (s s' : St) (i : N
           exact absurd hok (keyf _ _ _)
     · simp at h
 
+/-! ## wake-up: the reader queue (proved) and the writer queue (not proved) -/
+
+theorem run_rq (c : Cfg) (hc : c.Good) (s s' : St) (evs : List (Nat × Ev)) (h : run c s evs = some s')
+    (hinv : RInv s) (hq : RQ2 s) : RQ2 s' := by
+  induction evs generalizing s with
+  | nil => simp [run] at h; subst h; exact hq
+  | cons x rest ih =>
+    obtain ⟨i, e⟩ := x
+    simp only [run] at h
+    split at h
+    · rename_i s1 h1
+      exact ih s1 h (step_inv c hc s s1 i e h1 hinv) (step_rq c s s1 i e h1 hinv hq)
+    · simp at h
+
+/-- **no lost wake-up for readers** (partial wake-up result): in every reachable state, whenever a reader is
+parked on `state`, the readers-waiting bit is still set in the lock word — so the thread that makes the word
+unlocked sees it and runs `wake_writer_or_readers` — or a thread is already about to issue the wake-all.  And a
+reader only ever sleeps on an expected value that carries the bit. -/
+theorem rw_readers_no_lost_wakeup_partial (c : Cfg) (hc : c.Good) (s : St) (h : Reachable c s)
+    (hp : ∃ i, parkedOn (s.ths i) 0 = true) :
+    hasRW s.state = true ∨ ∃ j, (s.ths j).pc = .kWakeR := by
+  obtain ⟨progs, evs, h⟩ := h
+  exact (run_rq c hc _ s evs h (init_inv progs) (init_rq2 progs)).rq hp
+
 /-
-`rw_no_lost_wakeup` (NOT proved; full statement kept):
+`rw_no_lost_wakeup` (full statement kept; only the reader half above is proved):
   Reachable c s →
-    ((∃ i, parkedOn (s.ths i) 0) → hasRW s.state ∨ ∃ j, (s.ths j).pc = .kWakeR) ∧
-    ((∃ i, parkedOn (s.ths i) 1) → hasWW s.state ∨ (∃ j, wake pending at j) ∨ ∃ j, awake writer contender j)
-  and hence: whenever a thread is parked some other thread can step (`rw_no_deadlock`).
+    ((∃ i, parkedOn (s.ths i) 0) → hasRW s.state ∨ ∃ j, (s.ths j).pc = .kWakeR)                       -- proved
+    ∧ ((∃ i, parkedOn (s.ths i) 1) → hasWW s.state ∨ (∃ j, wake pending at j) ∨ ∃ j, awake writer contender j)  -- NOT proved
+  and hence: whenever a thread is parked some other thread can step (`rw_no_deadlock`)                  -- NOT proved
 The writer half needs the release/acquire argument on `writer_notify` (sequence sampled with Acquire before the
 relaxed re-read of `state`), i.e. a model in which relaxed loads of `state` are bounded by the thread's view; the
 present model lets a relaxed load observe any value, under which the writer half is false.
@@ -296,6 +322,17 @@ def twoReaders : Option (Nat × Bool × Bool) :=
     (fun s => (s.state, holdsR (s.ths 0), holdsR (s.ths 1)))
 
 example : twoReaders = some (2, true, true) := by decide
+
+/-- a reachable state with a reader parked on `state` while a writer holds the lock and the RW bit is set -/
+def parkedReader : Option (Bool × Bool × Bool) :=
+  (run { genCfg with spinMax := 0 } (init [[⟨.write, 0⟩], [⟨.read, 0⟩]])
+    [(0, .call .write), (0, .cas 0 true 0 WRITE_LOCKED .ok),
+     (1, .call .read), (1, .load 0 WRITE_LOCKED), (1, .load 0 WRITE_LOCKED),
+     (1, .cas 0 false WRITE_LOCKED (WRITE_LOCKED + RW) .ok), (1, .load 0 (WRITE_LOCKED + RW)),
+     (1, .fwait 0 (WRITE_LOCKED + RW) true)]).map
+    (fun s => (parkedOn (s.ths 1) 0, hasRW s.state, holdsW (s.ths 0)))
+
+example : parkedReader = some (true, true, true) := by decide
 example : Reachable genCfg (init [[⟨.write, 1⟩]]) := ⟨[[⟨.write, 1⟩]], [], rfl⟩
 example : genCfg.Good := gen_cfg_good
 
